@@ -16,24 +16,25 @@ CLAIMED = {
     text='Bounded SMT verification (z3, exact reals) of the jaxpr of the real distributed_shampoo(...).update: every output leaf is proved equal to an '
          'independent reference model of the documented blocked-Shampoo math for ALL states, gradients, parameters and step counters, per configuration x '
          'shape (pairwise option coverage); inverse roots are uninterpreted functions shared by code and reference. Counterexamples (and trace-time crashes of '
-         'the real code) are replayed on the real, unstubbed optimizer over gradient histories from init before being reported.',
+         'the real code) are replayed on the real, unstubbed optimizer over gradient histories from init before being reported. The sharded variant is checked the same way, '
+         'with the update proved to use the preconditioners stored before the step (previous refresh).',
     note='Exact real arithmetic; root routine abstracted (padding-invariance assumed, body is C01); bounded set of configurations/shapes (rank<=3, dims<=5); '
          'trusted: z3, jax.make_jaxpr, evaluator (differentially validated on each run), the reference model in vp/props/ds_ref.py.',
     design='§3 C02', technique='jaxpr->SMT symbolic evaluation (Real domain) vs reference model, UF-abstracted roots, lazy case split, z3'),
   'C04': dict(
     text='Bounded SMT verification with a symbolic step counter (0..2^31-2): z3 proves on the real update jaxprs that statistics / preconditioners / metrics '
          'are term-identical off-schedule, that refreshed preconditioners are gate(ROOT(statistics after this step)), counter+1, and the warm-up contract '
-         '(reference model and self-composition with start=never/start=0), for every (s,q,t0) of the grid; each unchanged-claim has an on-step reachability twin.',
+         '(reference model and self-composition with start=never/start=0), for every (s,q,t0) of the grid; the learning-rate-scheduled interval (piecewise constant q_t >= 1, last piece '
+         'unbounded), the sharded variant, Tearfree Shampoo / Sketchy and the Tearfree grafting wrapper are covered as well; each unchanged-claim has an on-step reachability twin.',
     note='Exact real arithmetic: bit-identity is proved as term identity (state passed through unchanged); counter overflow excluded; roots abstracted as UFs.',
     design='§3 C04', technique='jaxpr->SMT symbolic evaluation with symbolic step counter, z3 (LIA+NRA+UF)'),
   'C05': dict(
     text='Bounded SMT verification (z3, exact reals) of the grafting contract on the real update jaxprs: Distributed Shampoo is evaluated on one symbolic '
          'state with graft type X and with graft NONE, and z3 proves update = u0 * |closed-form graft step| / (|preconditioned grad| + eps) with a '
          'non-negative multiplier (hence same direction, transplanted norm, zero stays zero), and update = graft step before the start step and for '
-         'excluded parameters, for all 6 grafting types, full and low-rank-compressed preconditioners; Tearfree: grafting.graft around the real '
+         'excluded parameters, for all 6 grafting types and the full, low-rank-compressed, frequent-directions-sketched and int16-quantized preconditioner representations; Tearfree: grafting.graft around the real '
          'Shampoo/Sketchy transform versus the transform traced alone.',
-    note='Exact reals; norm equality follows from the proved multiplier identity by homogeneity of the Euclidean norm; roots/eigh/svd abstracted; '
-         'FD-sketched and int16-quantized DS modes not covered (stated in evidence).',
+    note='Exact reals; norm equality follows from the proved multiplier identity by homogeneity of the Euclidean norm; roots/eigh/svd (and the FD / low-rank root routines) abstracted as uninterpreted functions.',
     design='§3 C05', technique='jaxpr->SMT symbolic evaluation, self-composition (grafted vs un-grafted trace), z3'),
   'C08': dict(
     text='Bounded SMT verification of non-interference as 2-safety by self-composition on the real update jaxprs (Distributed Shampoo and Tearfree Shampoo): '
